@@ -41,6 +41,8 @@ type lEvent struct {
 	assume []string
 	bind   map[string]bval // result bindings of the path so far (system-call events only)
 	frames []*lframe
+	at     ssa.Instruction // generic mode: the marked instruction of a "mark" event
+	deferd bool            // generic mode: executed by a deferred call
 }
 
 type lPath struct {
@@ -48,6 +50,8 @@ type lPath struct {
 	assume []string
 	ret    int // +1 nil, -1 non-nil, 0 unknown
 	retPos token.Pos
+	retIn  *ssa.Return
+	noret  bool // ended in a call that does not return, or a panic
 }
 
 type lframe struct {
@@ -58,6 +62,14 @@ type lframe struct {
 	defFrame *lframe // for closures: the frame in which the closure was created
 	id       string
 	of       *origin.Frame
+	retBlk   *ssa.BasicBlock // where the caller continues (nil: after the call instruction)
+	retIdx   int
+	deferred bool
+}
+
+type ldefer struct {
+	in ssa.CallInstruction
+	fr *lframe
 }
 
 func (f *lframe) isAncestorOrSelf(g *lframe) bool {
@@ -81,10 +93,22 @@ type lstate struct {
 	assume []string
 	events []lEvent
 	steps  int
+	gdefer map[string][]ldefer // generic mode: frame id -> deferred calls
+	visits map[string]int      // generic mode: frame id @ block -> times entered
 }
 
 func (s *lstate) clone() *lstate {
 	n := &lstate{fr: s.fr, blk: s.blk, idx: s.idx, prev: map[string]*ssa.BasicBlock{}, nilOf: map[string]int8{}, defers: map[string][]string{}, bind: map[string]bval{}, steps: s.steps}
+	if s.gdefer != nil {
+		n.gdefer = map[string][]ldefer{}
+		for k, v := range s.gdefer {
+			n.gdefer[k] = append([]ldefer{}, v...)
+		}
+		n.visits = map[string]int{}
+		for k, v := range s.visits {
+			n.visits[k] = v
+		}
+	}
 	for k, v := range s.prev {
 		n.prev[k] = v
 	}
@@ -112,6 +136,11 @@ type ltrace struct {
 	root     *ssa.Function
 	nFrames  int
 	convFn   *ssa.Function // the sock_filter conversion found by the chain rule
+	// generic mode (engine E9, paths.go): any function, every call is an event, deferred closures are run, loops are
+	// entered at most twice
+	generic bool
+	marks   map[ssa.Instruction]bool
+	nCut    int
 }
 
 func (t *ltrace) problem(format string, a ...interface{}) {
@@ -125,6 +154,9 @@ func (t *ltrace) problem(format string, a ...interface{}) {
 }
 
 func (t *ltrace) eventKind(c ssa.CallInstruction) string {
+	if t.generic {
+		return ""
+	}
 	cal := flow.Callee(c)
 	switch {
 	case cal != nil && cal == t.m.seccompW:
@@ -554,7 +586,14 @@ func (t *ltrace) nilness(v ssa.Value, fr *lframe, s *lstate, depth int) int {
 				if k, ok := s.nilOf[key]; ok {
 					return int(k)
 				}
+				if t.generic {
+					return 1 // never stored on this path: the zero value
+				}
 			}
+		}
+	case *ssa.Extract:
+		if ta, ok := x.Tuple.(*ssa.TypeAssert); ok && x.Index == 0 {
+			return t.nilness(ta.X, fr, s, depth+1)
 		}
 	}
 	return 0
@@ -668,10 +707,57 @@ func (t *ltrace) run(s *lstate) {
 		}
 		in := s.blk.Instrs[s.idx]
 		s.idx++
+		if t.generic && s.idx == 1 {
+			k := s.fr.id + "@" + fmt.Sprint(s.blk.Index)
+			s.visits[k]++
+			if s.visits[k] > 2 {
+				t.nCut++
+				return
+			}
+		}
+		if t.marks[in] {
+			s.events = append(s.events, lEvent{kind: "mark", fr: s.fr, at: in, deferd: s.fr.inDeferred()})
+		}
+		if t.generic {
+			switch x := in.(type) {
+			case *ssa.Defer:
+				s.gdefer[s.fr.id] = append(s.gdefer[s.fr.id], ldefer{x, s.fr})
+				continue
+			case *ssa.RunDefers:
+				ds := s.gdefer[s.fr.id]
+				if len(ds) == 0 {
+					continue
+				}
+				d := ds[len(ds)-1]
+				s.gdefer[s.fr.id] = ds[:len(ds)-1]
+				s.idx-- // come back for the next deferred call
+				t.genericCall(s, d.in, true)
+				continue
+			case *ssa.Go:
+				continue
+			case *ssa.Panic:
+				t.paths = append(t.paths, &lPath{events: s.events, assume: s.assume, noret: true, retPos: x.Pos()})
+				return
+			case *ssa.Call:
+				if t.genericCall(s, x, false) {
+					return
+				}
+				continue
+			case *ssa.Return:
+				if s.fr.parent == nil {
+					ret := 0
+					if n := len(x.Results); n > 0 && flow.IsErrorType(x.Results[n-1].Type()) {
+						ret = t.nilness(x.Results[n-1], s.fr, s, 0)
+					}
+					t.paths = append(t.paths, &lPath{events: s.events, assume: s.assume, ret: ret, retPos: x.Pos(), retIn: x})
+					return
+				}
+			}
+		}
 		switch x := in.(type) {
 		case *ssa.Store:
 			if key, ok := t.cellKey(x.Addr, s.fr); ok {
-				if k := t.nilness(x.Val, s.fr, s, 0); k != 0 {
+				if k := t.nilness(x.Val, s.fr, s, 0); k != 0 || t.generic {
 					s.nilOf[key] = int8(k)
 				} else {
 					delete(s.nilOf, key)
@@ -779,10 +865,79 @@ func (t *ltrace) run(s *lstate) {
 				}
 			}
 			s.fr = fr.parent
-			s.blk = fr.call.Block()
-			s.idx = flow.InstrIndex(fr.call) + 1
+			if fr.retBlk != nil {
+				s.blk, s.idx = fr.retBlk, fr.retIdx
+			} else {
+				s.blk = fr.call.Block()
+				s.idx = flow.InstrIndex(fr.call) + 1
+			}
 		}
 	}
+}
+
+func (f *lframe) inDeferred() bool {
+	for x := f; x != nil; x = x.parent {
+		if x.deferred {
+			return true
+		}
+	}
+	return false
+}
+
+// genericCall (generic mode): a call executed on the path, directly or by a deferred statement.  Closures of the function
+// are entered; a call that does not return ends the path; a call that can fail forks it.  Reports whether the path ended.
+func (t *ltrace) genericCall(s *lstate, x ssa.CallInstruction, deferred bool) bool {
+	com := x.Common()
+	inDef := deferred || s.fr.inDeferred()
+	var target *ssa.Function
+	var mc *ssa.MakeClosure
+	if m, ok := com.Value.(*ssa.MakeClosure); ok {
+		mc = m
+		target, _ = m.Fn.(*ssa.Function)
+	}
+	if target != nil && len(target.Blocks) > 0 && len(com.Args) == len(target.Params) {
+		d := 0
+		for f := s.fr; f != nil; f = f.parent {
+			d++
+		}
+		if d < 6 {
+			id := fmt.Sprintf("%s>%s@%d.%d.%d", s.fr.id, target.Name(), x.Block().Index, flow.InstrIndex(x), len(s.frames))
+			nf := &lframe{fn: target, parent: s.fr, call: x, closure: mc, defFrame: s.fr, id: id, deferred: deferred}
+			nf.of = &origin.Frame{Fn: target, Args: map[*ssa.Parameter]*origin.O{}, Parent: s.fr.of, ID: id}
+			if deferred {
+				nf.retBlk, nf.retIdx = s.blk, s.idx
+			}
+			s.frames = append(s.frames, nf)
+			t.nFrames++
+			s.fr, s.blk, s.idx = nf, target.Blocks[0], 0
+			return false
+		}
+	}
+	call, _ := x.(*ssa.Call)
+	if _, isBuiltin := com.Value.(*ssa.Builtin); isBuiltin {
+		return false
+	}
+	if flow.IsNoReturn(x) {
+		s.events = append(s.events, lEvent{kind: "call", call: x, fr: s.fr, deferd: inDef})
+		t.paths = append(t.paths, &lPath{events: s.events, assume: s.assume, noret: true, retPos: x.Pos()})
+		return true
+	}
+	if call == nil || !sigHasError(x) || pureFailCall(x) || alwaysNonNil(flow.Callee(x)) {
+		s.events = append(s.events, lEvent{kind: "call", call: x, fr: s.fr, deferd: inDef})
+		return false
+	}
+	setErr := func(st *lstate, k int8) {
+		if ev := flow.ErrResult(call); ev != nil {
+			st.nilOf[vkey(st.fr, ev)] = k
+		}
+	}
+	s2 := s.clone()
+	s.events = append(s.events, lEvent{kind: "call", call: x, fr: s.fr, ok: 1, deferd: inDef})
+	setErr(s, 1)
+	s2.events = append(s2.events, lEvent{kind: "call", call: x, fr: s2.fr, ok: -1, deferd: inDef})
+	setErr(s2, -1)
+	t.run(s2)
+	return false
 }
 
 func sigHasError(c ssa.CallInstruction) bool {
